@@ -34,8 +34,11 @@ bytes (other OUT endpoints, unpopulated numbers, other addresses, SETUP data) be
 (B + L) % mps == 0 for a short packet of length L, or B % mps != 0 before a full packet.
 
 Not judged: behaviour of the control endpoint itself (C07-C10), response latency beyond generous windows,
-first/last flags of the OUT stream (C13), flush/discard of the IN stream (C11).  The OUT endpoints' buffers are never
-overflowed (a held consumer gets at most 2*mps-1 bytes): what the endpoint does on overflow is C13's subject.
+single-endpoint first/last rules of the OUT stream (C13), flush/discard of the IN stream (C11).  OUT endpoints are built
+with buffer_size in {default, mps, mps+1, 2*mps, 3*mps}; on a held consumer full packets are sent until the endpoint NAKs
+(overflow), then a PING and transactions to OTHER endpoints follow (their tokens end the overflow state), then a retry:
+NAK => nothing delivered and the same toggle still expected, ACK => delivered exactly once.  Whether ACK or NAK is the
+right answer for a given fill level is C13's subject.
 Known finding (findings/C12.md): `in_advanced_by_ack_to_other_device` - the only mechanism name that is produced when an
 un-ACKed IN endpoint advances right after the host ACKed a transaction of another device *address* and no token for
 this device was sent in between; every other deviation keeps its own mechanism name.
@@ -56,7 +59,9 @@ REQUIRED_BINS = ["in_retry_across_foreign_ack", "in_retry_across_same_number_out
                  "foreign_address_out", "in_ack_withheld_silent", "in_ack_withheld_damaged", "out_damaged_data",
                  "out_wrong_toggle_sent", "sig_between_stream_transactions", "control_transfer_between", "in_zlp",
                  "absent_number_one_bit_from_populated", "fs60_session", "ping_nak",
-                 "foreign_ack_while_waiting_for_ack", "out_bytecount_alias_pattern"]
+                 "foreign_ack_while_waiting_for_ack", "out_bytecount_alias_pattern",
+                 "out_nak_buffer_full", "foreign_token_after_out_overflow", "out_retry_after_nak_accepted", "out_buffer_size_mps",
+                 "out_buffer_size_default", "out_buffer_size_large"]
 REQUIRED_EVENTS = ["ep_tx_valid_cycles", "ep_handshake_requests", "in_data_packets", "in_acked", "in_naks", "out_acked_new",
                    "out_delivery_checks", "in_stream_bytes_accepted", "out_stream_bytes_delivered", "sig_transactions",
                    "tokens_without_endpoint", "ping_transactions", "out_framing_replays", "out_framing_beats_compared",
@@ -65,7 +70,7 @@ ASSUMPTIONS = ["legal host: one transaction at a time, waits for the response or
                "a NAK to IN is accepted unless the next packet has been complete for >= 25 cycles (60 at the 60 MHz tables)",
                "the control endpoint's own responses are not judged here",
                "CLEAR_FEATURE(ENDPOINT_HALT) traffic is exercised in C14",
-               "OUT endpoint buffers are never overflowed (C13's subject)"]
+               "OUT buffer overflow is only provoked on a held consumer; there ACK (=> delivered once, toggle advances) and NAK (=> nothing delivered, same toggle expected again) are both accepted; whether the choice is right is C13's subject"]
 
 
 def run_case(rng, tier, res):
@@ -73,6 +78,8 @@ def run_case(rng, tier, res):
     s = Session(rng, res, tier=tier)
     if s.fs60:
         res.bin("fs60_session")
+    for n, size in s.cfg["out_buffer"].items():
+        res.bin("out_buffer_size_" + {None: "default", "mps": "mps", "mps+1": "mps", "2mps": "large", "3mps": "large"}[size])
     ins = [k for k, m in s.models.items() if m.kind == "in"]
     outs = [k for k, m in s.models.items() if m.kind == "out"]
     sig = (s.sig_number, "in")
@@ -326,23 +333,27 @@ def run_case(rng, tier, res):
                 yield from absent_token()
             elif r < 0.93:
                 yield from foreign(rng.choice(["in", "in", "out"]))
-            elif r < 0.96:
+            elif r < 0.95:
                 yield from control()
-            elif r < 0.97:
+            elif r < 0.96:
                 frame = (frame + 1) % 2048
                 yield from s.op_sof(frame)
             else:
                 # stall / release an OUT consumer, hold / release an IN feeder
-                stallable = [k for k in outs if s.cfg["consumer"][k[0]] == "stall"]
-                if stallable:
+                stallable = [k for k in outs if k != focus]
+                if stallable and rng.random() < 0.7:
+                    # buffer-full NAK on endpoint k; a token for ANOTHER endpoint then ends its overflow state; retry
                     k = rng.choice(stallable)
-                    s.consumer_hold[k] = not s.consumer_hold.get(k)
-                    s.log("HOLD" if s.consumer_hold[k] else "RELEASE", k)
-                    if s.consumer_hold[k]:
-                        for _ in range(2):       # fill the endpoint's buffer (never beyond its capacity), then PING
-                            yield from do_out(k, choice="expected", fault=None, length=s.models[k].mps)
-                            yield from s.gap()
+
+                    def elsewhere():
                         yield from s.op_ping(k[0])
+                        yield from s.gap()
+                        for _ in range(rng.randint(1, 2)):
+                            yield from other_traffic(k)
+                            yield from s.gap()
+                        res.bin("foreign_token_after_out_overflow")
+                    yield from s.nak_pattern(k, between=elsewhere)
+                    note(k)
                 elif ins:
                     k = rng.choice(ins)
                     s.feed_hold[k] = not s.feed_hold.get(k)
